@@ -6,6 +6,7 @@ package snowflake_client
 // client's Negotiate returns a description or an error and never panics.
 
 import (
+	"encoding/json"
 	"fmt"
 	"strings"
 	"testing"
@@ -24,8 +25,10 @@ func TestVerifC13Client(t *testing.T) {
 	defer r.Finish()
 	rng := r.Rng
 	offer := &webrtc.SessionDescription{Type: webrtc.SDPTypeOffer, SDP: "v=0\r\no=- 1 2 IN IP4 8.8.8.8\r\ns=-\r\nt=0 0\r\n"}
+	keep := true
 	try := func(class string, resp []byte) {
-		bc := &BrokerChannel{Rendezvous: &c13Rendezvous{resp: resp}, keepLocalAddresses: true, natType: nat.NATUnknown}
+		keep = !keep // both settings of keepLocalAddresses
+		bc := &BrokerChannel{Rendezvous: &c13Rendezvous{resp: resp}, keepLocalAddresses: keep, natType: nat.NATUnknown}
 		out := ""
 		func() {
 			defer func() {
@@ -93,6 +96,32 @@ func TestVerifC13Client(t *testing.T) {
 		default:
 			try("wrapped", []byte(`{"answer":`+g.StrLit(inner)+`}`))
 		}
+	}
+	// answers whose SDP text is a well-formed description of every shape pion accepts: with and without session- and
+	// media-level connection lines, 0..3 media sections, local and public candidates, odd attribute lines
+	for i := 0; i < r.N(400, 8000); i++ {
+		var b strings.Builder
+		b.WriteString("v=0\r\no=- 4358805017720277108 2 IN IP4 8.8.8.8\r\ns=-\r\n")
+		if rng.Intn(2) == 0 {
+			b.WriteString("c=IN IP4 " + []string{"192.168.1.7", "8.8.4.4", "0.0.0.0", "10.0.0.1/127"}[rng.Intn(4)] + "\r\n")
+		}
+		b.WriteString("t=0 0\r\n")
+		for m, nm := 0, rng.Intn(4); m < nm; m++ {
+			b.WriteString("m=application 9 UDP/DTLS/SCTP webrtc-datachannel\r\n")
+			if rng.Intn(2) == 0 {
+				b.WriteString("c=IN " + []string{"IP4 192.168.0.9", "IP4 1.2.3.4", "IP6 fd00::1", "IP6 2001:db8::2", "IP4 0.0.0.0"}[rng.Intn(5)] + "\r\n")
+			}
+			for a, na := 0, rng.Intn(5); a < na; a++ {
+				b.WriteString("a=" + []string{
+					"candidate:1 1 udp 2122260223 192.168.1.5 56688 typ host", "candidate:2 1 udp 2122260223 8.8.8.8 5000 typ host",
+					"candidate:3 1 udp 1 10.1.2.3 9 typ srflx raddr 0.0.0.0 rport 0", "candidate:4 1 tcp 1 fd00::2 9 typ host tcptype active",
+					"candidate:", "candidate:x", "mid:0", "setup:active", "ice-ufrag:abcd", "end-of-candidates", "sctp-port:5000",
+				}[rng.Intn(11)] + "\r\n")
+			}
+		}
+		ans, _ := json.Marshal(map[string]string{"type": []string{"answer", "offer", "pranswer"}[rng.Intn(3)], "sdp": b.String()})
+		wrapped, _ := json.Marshal(map[string]string{"answer": string(ans)})
+		try("sdp-shaped", wrapped)
 	}
 	for _, s := range []string{``, `{}`, `{"answer":""}`, `{"answer":"x"}`, `{"error":"no"}`, `{"answer":"{\"type\":1,\"sdp\":\"\"}"}`, `{"answer":"{\"type\":\"offer\"}"}`,
 		`{"answer":"{\"type\":\"answer\",\"sdp\":null}"}`, `{"answer":"null"}`, `{"answer":"[]"}`, `{"answer":"{\"type\":\"bogus\",\"sdp\":\"x\"}"}`, `{"answer":"{\"type\":\"answer\",\"sdp\":\"v=0\"}"}`} {
